@@ -220,6 +220,7 @@ func (r *Decoder) captureOpenLiteral(uncommitted cursorio.DecodedRuneList) (rdf.
 END_LEXICAL_FORM:
 
 	stringRange := r.commitForTextOffsetRange(uncommitted.AsDecodedRunes())
+	uncommitted = nil
 
 	r0, err := r.buf.NextRune()
 	if err != nil {
@@ -265,9 +266,9 @@ END_LEXICAL_FORM:
 
 		r2, err := r.buf.NextRune()
 		if err != nil {
-			return rdf.Literal{}, nil, grammar.R_literal.Err(r.newOffsetError(err, append(uncommitted, r0, r1).AsDecodedRunes(), cursorio.DecodedRunes{}))
+			return rdf.Literal{}, nil, grammar.R_literal.Err(r.newOffsetError(err, cursorio.DecodedRunes{}, cursorio.DecodedRunes{}))
 		} else if r2.Rune != '<' {
-			return rdf.Literal{}, nil, grammar.R_literal.Err(r.newOffsetError(cursorioutil.UnexpectedRuneError{Rune: r2.Rune}, append(uncommitted[:], r0, r1).AsDecodedRunes(), r2.AsDecodedRunes()))
+			return rdf.Literal{}, nil, grammar.R_literal.Err(r.newOffsetError(cursorioutil.UnexpectedRuneError{Rune: r2.Rune}, cursorio.DecodedRunes{}, r2.AsDecodedRunes()))
 		}
 
 		iri, iriRange, err := r.captureOpenIRI(cursorio.DecodedRuneList{r2})
